@@ -120,6 +120,18 @@ var xUnits = []xUnit{
 		From: "^", To: "pos = (tw.currPos + pos) % len(tw.timeWheel)", Outs: []string{"pos"},
 		After:  []string{"c := tw.timeWheel[pos]", "tw.lock.Unlock()", "return c"},
 		Ignore: []string{"tw.lock.Lock()"}, Oracles: map[string]xOracle{"len(tw.timeWheel)": {"wheel_size", "Z"}}},
+	// the receive loops: what happens to one chunk read from the connection - append it, then cut off and hand over
+	// complete packages until the protocol says "less" or "error" (return = the connection is given up)
+	{Name: "tr_srv_recv_chunk", Dir: "tars/transport", Func: "tcpHandler.recv", Deep: true, Fuel: true,
+		From: "currBuffer = append(currBuffer, buffer[:n]...)", To: "for {", Outs: []string{"currBuffer"}, After: []string{}, Fresh: []string{"currBuffer"},
+		Writer: &xWriter{Type: "list (list N)", Prims: map[string]xPrim{"t.handleConn": {"go_deliver", []int{1}}}},
+		Funcs:  map[string]xOracle{"t.server.protocol.ParsePackage": {"parse_package", "list N -> Z * Z"}},
+		Ignore: []string{`TLOG.Errorf("parse package error %s %v", conn.RemoteAddr(), err)`}},
+	{Name: "tr_cli_recv_chunk", Dir: "tars/transport", Func: "connection.recv", Deep: true, Fuel: true,
+		From: "currBuffer = append(currBuffer, buffer[:n]...)", To: "for {", Outs: []string{"currBuffer"}, After: []string{}, Fresh: []string{"currBuffer"},
+		Writer: &xWriter{Type: "list (list N)", Prims: map[string]xPrim{"c.client.protocol.Recv": {"go_deliver", []int{0}}}},
+		Funcs:  map[string]xOracle{"c.client.protocol.ParsePackage": {"parse_package", "list N -> Z * Z"}},
+		Ignore: []string{`TLOG.Error("parse package error")`, "c.close(conn)", "atomic.AddInt32(&c.invokeNum, -1)"}},
 	// the registry <-> endpoint conversions (Tars2endpoint without its cache key)
 	{Name: "tr_Endpoint2tars", Dir: "tars/util/endpoint", Func: "Endpoint2tars"},
 	{Name: "tr_Tars2endpoint_build", Dir: "tars/util/endpoint", Func: "Tars2endpoint", From: "^", To: "e := Endpoint{",
@@ -314,7 +326,7 @@ func xlateUnit(root string, u *xUnit, units []xUnit, ld *xLoader, records map[st
 		x.retType = "(" + strings.Join(rts, " * ") + ")"
 	}
 	if u.Writer != nil {
-		x.retType = "(list N * " + x.retType + ")"
+		x.retType = "(" + u.Writer.typ() + " * " + x.retType + ")"
 	}
 	// receiver fields (receiver-fields mode) and oracles become parameters; scanned over the translated statements
 	recvAndOracles := func(stmts []ast.Stmt, isSlice bool) {
@@ -400,6 +412,14 @@ func xlateUnit(root string, u *xUnit, units []xUnit, ld *xLoader, records map[st
 		for _, n := range mnames {
 			params = append(params, "("+u.Methods[n].Name+" : "+u.Methods[n].Type+")")
 		}
+		var fnames []string
+		for n := range u.Funcs {
+			fnames = append(fnames, n)
+		}
+		sort.Strings(fnames)
+		for _, n := range fnames {
+			params = append(params, "("+u.Funcs[n].Name+" : "+u.Funcs[n].Type+")")
+		}
 	}
 	body := fd.Body.List
 	var stateT, final string
@@ -460,8 +480,8 @@ func xlateUnit(root string, u *xUnit, units []xUnit, ld *xLoader, records map[st
 		}
 		recvAndOracles(fd.Body.List, false)
 		if u.Writer != nil {
-			params = append(params, "(out : list N)")
-			stateT, final = "(list N)", "Next out"
+			params = append(params, "(out : "+u.Writer.typ()+")")
+			stateT, final = "("+u.Writer.typ()+")", "Next out"
 		} else if u.State != nil {
 			// reaching the end of the body is a return (functions without results, or with named ones)
 			stateT, final = "unit", ""
@@ -472,6 +492,32 @@ func xlateUnit(root string, u *xUnit, units []xUnit, ld *xLoader, records map[st
 		first, last := -1, -1
 		if u.From == "^" { // from the first statement of the function
 			first = 0
+		}
+		if u.Deep { // the statement list (anywhere in the function) that holds the statements From and To; it must be the only one
+			var found [][]ast.Stmt
+			ast.Inspect(fd.Body, func(n ast.Node) bool {
+				var list []ast.Stmt
+				switch n := n.(type) {
+				case *ast.BlockStmt:
+					list = n.List
+				case *ast.CaseClause:
+					list = n.Body
+				}
+				hasF, hasT := false, false
+				for _, st := range list {
+					line := strings.SplitN(x.src(st), "\n", 2)[0]
+					hasF = hasF || line == u.From
+					hasT = hasT || line == u.To
+				}
+				if hasF && hasT {
+					found = append(found, list)
+				}
+				return true
+			})
+			if len(found) != 1 {
+				x.fail(fd, "slice %q .. %q: %d statement lists of %s hold both anchors (exactly one is needed)", u.From, u.To, len(found), u.Func)
+			}
+			body = found[0]
 		}
 		for i, s := range body {
 			line := strings.SplitN(x.src(s), "\n", 2)[0]
@@ -513,6 +559,13 @@ func xlateUnit(root string, u *xUnit, units []xUnit, ld *xLoader, records map[st
 		seen := map[*types.Var]bool{}
 		for _, s := range body {
 			ast.Inspect(s, func(n ast.Node) bool {
+				if st, isStmt := n.(ast.Stmt); isStmt {
+					for _, ig := range u.Ignore {
+						if x.src(st) == ig {
+							return false
+						}
+					}
+				}
 				if id, ok := n.(*ast.Ident); ok {
 					if v, ok := x.info.Uses[id].(*types.Var); ok && !v.IsField() && !seen[v] && types.Object(v) != recvObj && v.Parent() != p.pkg.Scope() && v.Parent() != types.Universe &&
 						!(lo <= v.Pos() && v.Pos() < hi) && fd.Pos() <= v.Pos() && v.Pos() < fd.End() {
@@ -525,11 +578,18 @@ func xlateUnit(root string, u *xUnit, units []xUnit, ld *xLoader, records map[st
 		}
 		sort.Slice(free, func(i, j int) bool { return free[i].Pos() < free[j].Pos() })
 		for _, v := range free {
+			if !x.translatable(v.Type()) { // used in ignored statements / untranslated callees only: any other use fails
+				continue
+			}
 			params = append(params, "("+x.declare(v)+" : "+x.coqType(fd, v.Type())+")")
 			x.paramNames = append(x.paramNames, x.names[v])
 			x.isParam[v] = true
 		}
 		recvAndOracles(body, true)
+		if u.Writer != nil {
+			params = append(params, "(out : "+u.Writer.typ()+")")
+			x.paramNames = append(x.paramNames, "out")
+		}
 		if u.State != nil { // state mode: the state is the last parameter and the first component of what is returned
 			params = append(params, "(rd : "+u.State.Type+")")
 			x.paramNames = append(x.paramNames, "rd")
